@@ -28,6 +28,17 @@ SumR(f(_), k, n) == IF k > n THEN R(0) ELSE RAdd(f(k), SumR(f, k + 1, n))
 RECURSIVE SumI(_, _, _)
 SumI(f(_), k, n) == IF k > n THEN 0 ELSE f(k) + SumI(f, k + 1, n)
 
+\* floor(x * 10^6) for a rational x >= 0, computed by long division so that no
+\* product exceeds 1000 * denominator (TLC integers are 32 bit); saturates at 10^6
+Micro(x) == IF x[1] >= x[2] THEN 1000000
+            ELSE LET q1 == (x[1] * 1000) \div x[2]
+                     r1 == (x[1] * 1000) % x[2]
+                 IN  q1 * 1000 + (r1 * 1000) \div x[2]
+CeilAbs(v) == LET a == AbsI(v[1]) IN (a + v[2] - 1) \div v[2]
+MaxI(a, b) == IF a >= b THEN a ELSE b
+\* |w - v| <= k * 1e-6 * max(1, |v|)
+CloseRel(w, v, k) == Micro(RAbs(RSub(w, v))) <= k * MaxI(1, CeilAbs(v))
+
 ---------------------------------------------------------------------------
 (* exact verdict of a (mixed-integer) linear model *)
 IntIdx(ev) == SelectSeq([i \in 1..NV(ev) |-> i], LAMBDA i : ev.vars[i].kind \in {"bool", "int"})
@@ -143,10 +154,7 @@ SimplexBased(ev) == ev.entry # "clarabel"
 ValueOk(ev, v) ==
    IF ev.sense = "sat" THEN TRUE
    ELSE IF ev.sol.value.snap THEN
-           LET w == Norm(ev.sol.value.n, ev.sol.value.d)
-               diff == RAbs(RSub(w, v))
-               scale == RMax(R(1), RAbs(v))
-           IN  RLe(RMul(diff, R(1000000)), RMul(R(2), scale))
+           CloseRel(Norm(ev.sol.value.n, ev.sol.value.d), v, 2)
         ELSE CAbs(ev.sol.value.c * v[2] - v[1] * CS) <= CTol * v[2] * (1 + CAbs(v[1]) \div v[2])
 VerdictProblems(ev) ==
    LET vd == Verdict(ev) IN
@@ -188,7 +196,7 @@ Slope(ev, k) ==
        ELSE [def |-> FALSE, v |-> R(0)]
 DualOf(ev, nm) == {j \in 1..Len(ev.sol.duals) : ev.sol.duals[j].name = nm}
 FirstNamed(ev, k) == ev.rows[k].name # "" /\ \A k2 \in 1..(k - 1) : ev.rows[k2].name # ev.rows[k].name
-DualClose(o, v) == IF o.snap THEN LET w == Norm(o.n, o.d) IN RLe(RMul(RAbs(RSub(w, v)), R(100000)), RMax(R(1), RAbs(v)))
+DualClose(o, v) == IF o.snap THEN CloseRel(Norm(o.n, o.d), v, 10)
                    ELSE CAbs(o.c * v[2] - v[1] * CS) <= CTol * v[2]
 DualProblems(ev) ==
    (IF \E j \in 1..Len(ev.sol.duals) : ev.sol.duals[j].name = "" \/ ~\E k \in 1..Len(ev.rows) : ev.rows[k].name = ev.sol.duals[j].name
@@ -221,7 +229,7 @@ WithinGap(ev, opt) ==
       LET w == Norm(o.n, o.d)
           diff == RAbs(RSub(w, opt))
           scale == RMax(RAbs(w), RAbs(opt))
-      IN  RLe(diff, RAdd(RMul(GapOf(ev.opt), scale), RMul(<<1, 1000000>>, RMax(R(1), RAbs(opt)))))
+      IN  RLe(diff, RMul(GapOf(ev.opt), scale)) \/ CloseRel(w, opt, 2)
    ELSE \* coarse: value * opt.d vs opt.n * CS, tolerance gap * scale + 1e-3
       LET g == GapOf(ev.opt)
           sc == IF CAbs(o.c) * opt[2] > CAbs(opt[1]) * CS THEN CAbs(o.c) * opt[2] ELSE CAbs(opt[1]) * CS
